@@ -260,9 +260,11 @@ func runC08(w *hx.Worker, mk func() *recGrammar, onlyKey string) {
 		return
 	}
 	w.Count("accepted", 1)
-	if r := rg.root.OutOfDomain(); r != "" {
-		// constructs the library treats as grammar bugs (they may loop up to MaxIterations): the Build
-		// verdict above is still judged, the dynamic cross-validation is skipped
+	if r := "nullable repetition body"; rg.root.HasNullableRepetition() {
+		// a repetition whose body can match nothing loops up to MaxIterations (the library's own notion of a
+		// grammar bug): Build's verdict above is still judged, the dynamic cross-validation is skipped.
+		// Nullable alternatives / union members are parsed: the library's "did not progress" panic is
+		// recovered below and simply yields no witness.
 		w.Count("accepted_but_not_parsed:"+r, 1)
 		if expected {
 			w.Count("unconfirmed:procedure says left-recursive, Build accepts, grammar not parsed (out of domain)", 1)
